@@ -182,6 +182,9 @@ void hot_strings(quill::LoggerImpl<FO>* l, char const* cs, char* ms, std::string
   // twelve variable-length C strings: the inline capacity of the size cache
   LOG_INFO(l, "{} {} {} {} {} {} {} {} {} {} {} {}", cs, cs, cs, cs, cs, cs, cs, cs, cs, cs, cs, cs);
   LOG_INFO(l, "{}", quill::utility::StringRef{s});
+  // a type whose decoded form (std::string_view) has another layout than what its own codec writes (pointer + size), inside the
+  // composite codecs: each must decode the element with the codec of the *encoded* type
+  LOG_INFO(l, "{} {}", std::make_tuple(quill::utility::StringRef{s}, 1), std::make_pair(quill::utility::StringRef{s}, 2));
 }
 
 template <typename FO>
